@@ -34,7 +34,9 @@ def replay_fault(tag, rec):
         for policy in ('zeros', 'stale', 'ones', 'zeros after a healthy solve'):
             clock = observe.VirtualClock()
             r = solverplay.run_once(argv, seed=7, getters=('results', 'short', 'long'), plan=plan, durations=durs,
-                                    clock=clock, values_on_fault=policy.split()[0], timeLimit=(rec['limit'] / 1e6) if rec['limit'] else None,
+                                    clock=clock, values_on_fault=policy.split()[0],
+                                    # whole seconds are passed as an int under one policy, as a float under the others
+                                    timeLimit=((int(rec['limit'] // 1000000) if policy == 'ones' and rec['limit'] % 1000000 == 0 else rec['limit'] / 1e6) if rec['limit'] else None),
                                     keep_sets=False, presolve=policy.endswith('healthy solve'),
                                     postsolve=(policy == 'stale' and not rec['limit']))
             st, S = r['construct']
